@@ -187,8 +187,10 @@ func (l *entryLog) AddEntries(entries []raftpb.Entry) error {
 	}
 
 	for _, re := range entries {
-		// Write upto maxNumEntries or maxLogFileSize, whatever happens first.
-		if l.nextEntryIdx >= maxNumEntries || offset+unit32Size+len(re.Data) > maxLogFileSize {
+		// Write upto maxNumEntries or maxLogFileSize, whatever happens first. An entry that does not
+		// even fit an empty file goes into it all the same: rotating would leave an empty file
+		// among the rotated ones, which the lookups take for the end of the log.
+		if l.nextEntryIdx >= maxNumEntries || (l.nextEntryIdx > 0 && offset+unit32Size+len(re.Data) > maxLogFileSize) {
 			if err := l.rotate(re.Index, offset); err != nil {
 				return err
 			}
